@@ -771,6 +771,15 @@ package sftp
 //@ ghost var fwd int
 
 //@ ghost var workersJoined bool
+//@ ghost var sweepDone bool
+//@ ghost var pmWaited bool
+
+//@ func (*packetManager).close
+//@   property C07, C14, C02
+//@   requires s != nil && s.working != nil && !ghost.pmWaited
+//@   update after call (*sync.WaitGroup).Wait#1: ghost.pmWaited = true
+//@   assert before call close#1: ghost.pmWaited
+// (the controller is told to stop only after every registered request has been answered: working.Wait() precedes close(fini))
 //@ ghost var sweeping bool
 
 //@ func (*Server).Serve
@@ -778,8 +787,11 @@ package sftp
 //@   update before call (*packetManager).workerChan#1: ghost.workersJoined = false
 //@   update before call (*packetManager).workerChan#1: ghost.sweeping = false
 //@   update after call (*sync.WaitGroup).Wait#1: ghost.workersJoined = true
-//@   loop 2 ghost sweeping
+//@   update before call (*packetManager).workerChan#1: ghost.sweepDone = false
+//@   loop 2 ghost sweeping, sweepDone
 //@   loop 2 invariant ghost.workersJoined
+//@   update after next#1: ghost.sweepDone = !ret0
+//@   ensures ghost.sweepDone
 //@   update before call (file).Name#1: ghost.sweeping = true
 //@   assert before call (file).Close#1: ghost.workersJoined && file == svr.openFiles[handle] && haskey(svr.openFiles, handle)
 //@   ensures ghost.workersJoined
@@ -828,6 +840,7 @@ package sftp
 //@   assert before call (*packetManager).incomingPacket#2: typeis(pkt.requestPacket, *sshFxpClosePacket) ==> ghost.waited
 //@   assert before send cmdChan#1: ghost.registered && !typeis(pkt.requestPacket, *sshFxpReadPacket) && !typeis(pkt.requestPacket, *sshFxpWritePacket)
 //@   assert before send cmdChan#1: typeis(pkt.requestPacket, *sshFxpClosePacket) ==> ghost.waited
+//@   update before call (*packetManager).close#1: ghost.pmWaited = false
 
 // ---------------------------------------------------------------------------
 // C09: a read-only server never changes the file system
@@ -1195,8 +1208,11 @@ package sftp
 //@   requires rsOK(rs) && rs.Reader != nil
 //@   update before call (*packetManager).workerChan#1: ghost.workersJoined = false
 //@   update after call (*sync.WaitGroup).Wait#1: ghost.workersJoined = true
-//@   loop 1 ghost notified
+//@   update before call (*packetManager).workerChan#1: ghost.sweepDone = false
+//@   loop 1 ghost notified, sweepDone
 //@   loop 1 invariant ghost.workersJoined && reqsOK(rs) && rs != nil
+//@   update after next#1: ghost.sweepDone = !ret0
+//@   ensures ghost.sweepDone
 //@   update before call (*Request).transferError#1: ghost.notified = true
 //@   assert before call (*Request).transferError#1: arg1 != io.EOF && ghost.workersJoined && arg0 == rs.openRequests[handle] && haskey(rs.openRequests, handle)
 //@   assert before call (*Request).close#1: ghost.notified && !haskey(rs.openRequests, handle) && arg0 == req
